@@ -172,6 +172,18 @@ func runC17(ctx *Ctx) error {
 		if r.Bool() {
 			side = -side
 		}
+		if r.Chance(0.15) {
+			// a long line along a parallel away from the equator: the segment is a great-circle arc that
+			// bows poleward of both its end points by L^2 tan(lat)/8R; centimetre tolerances, positions on the arc
+			lat1 = Pick(r, []float64{-1, 1}) * (40 + float64(r.Intn(440))/10)
+			length = 600 + float64(r.Intn(400))
+			brg = Pick(r, []float64{90, 270}) + float64(r.Intn(21)-10)/100
+			lat2, lon2 = sphDest(lat1, lon1, brg, length/6378137)
+			// end points at the same latitude: go half way and mirror
+			tol = Pick(r, []float64{0.01, 0.015, 0.02})
+			along = length * (0.4 + float64(r.Intn(20))/100)
+			side = Pick(r, []float64{0, 0.3, 0.6, -0.3}) * tol
+		}
 		mlat, mlon := sphDest(lat1, lon1, brg, along/6378137)
 		plat, plon := sphDest(mlat, mlon, brg+90, side/6378137)
 		in := c17Input{Lat1: lat1, Lon1: lon1, Lat2: lat2, Lon2: lon2, Lat0: plat, Lon0: plon, Tol: tol}
@@ -188,6 +200,7 @@ func runC17(ctx *Ctx) error {
 // ---------------------------------------------------------------- C18
 
 type c18Input struct {
+	FastFirst                              bool `json:",omitempty"`
 	Kind                                   string
 	Lat1, Lon1, Lat2, Lon2, Lat0, Lon0, Radius float64
 }
@@ -209,6 +222,10 @@ func addC18Case(ctx *Ctx, in c18Input) {
 	}
 	p := geo.NewProcessor(opts...)
 	fast := geo.NewProcessor(append(opts, geo.FastDistance())...)
+	if in.FastFirst {
+		// the same configuration with the options given in the other order
+		fast = geo.NewProcessor(append([]geo.Option{geo.FastDistance()}, opts...)...)
+	}
 	checks := map[string]bool{}
 	detail := map[string]any{}
 	switch in.Kind {
@@ -269,6 +286,7 @@ func runC18(ctx *Ctx) error {
 		if r.Chance(0.15) {
 			in.Radius = Pick(r, []float64{1, 1e7, 1737400})
 		}
+		in.FastFirst = r.Bool()
 		addC18Case(ctx, in)
 	}
 	for i := 0; i < ctx.N(1500, 30000); i++ {
@@ -327,7 +345,9 @@ func addC19Case(ctx *Ctx, in c19Input) {
 		x, y, _, rk := g.Forward(in.Lat0, in.Lon0, in.Lat, in.Lon)
 		var ang float64
 		geodesic.WGS84.Inverse(in.Lat0, in.Lon0, in.Lat, in.Lon, &ang, nil, nil)
-		if ang < 0.24*2*math.Pi*6378137 {
+		// inside the horizon (Forward gave a finite point with a geodesic scale that is not vanishing):
+		// the point must come back; this reaches to within about 15 km of the horizon
+		if ang < 0.24*2*math.Pi*6378137 || (ang < 0.2497*2*math.Pi*6378137 && !math.IsNaN(x) && rk >= 0.002) {
 			la, lo, _, _ := g.Reverse(in.Lat0, in.Lon0, x, y)
 			dl := math.Abs(lo - in.Lon)
 			if dl > 180 {
@@ -398,6 +418,9 @@ func runC19(ctx *Ctx) error {
 		lat0 := float64(r.Intn(1600)-800) / 10
 		lon0 := float64(r.Intn(3000)-1500) / 10
 		dist := Pick(r, []float64{10, 1000, 100000, 2e6, 5e6, 8e6, 9.5e6, 1.15e7, 1.4e7}) * (0.8 + float64(r.Intn(40))/100)
+		if r.Chance(0.15) {
+			dist = (0.2486 + float64(r.Intn(100))/100000) * 2 * math.Pi * 6378137 // the last 60 km before the horizon
+		}
 		lat, lon := sphDest(lat0, lon0, float64(r.Intn(3600))/10, dist/6378137)
 		addC19Case(ctx, c19Input{Kind: "projection", Lat0: lat0, Lon0: lon0, Lat: lat, Lon: lon})
 	}
